@@ -13,7 +13,9 @@ MODEL_NEEDS_IMPL = True
 SHARD = 6
 SIZES = {'quick': 150, 'thorough': 2500, 'search': 500}
 RULE = ('cases: the operator histories of C04 (problem built through the core API + 6-18 calls of the real ruin / recreate / local / '
-        'search operators with a scripted Random); every third history additionally observes every single applied insertion '
+        'search operators with a scripted Random; 1 step in 5 runs under a counting quota that is reached from its k-th poll '
+        'on, so the step is interrupted after some insertions; some jobs start pending in `ignored`); every third history '
+        'additionally observes every single applied insertion '
         'through the cfg(reinterpretcat_vrp_verif) hook. After every step (and observed insertion) RouteState::verif_digest() and '
         'the activity schedules of every tour are compared with those of a context rebuilt from the bare tours (route-level '
         'handlers on an empty cache, then accept_solution_state), SolutionState::verif_digest() and the fitness vector with those '
@@ -153,6 +155,7 @@ def oracle(c, impl):
             out.append({'class': 'solution-' + kind, 'what': 'state %d (after %s): %s differs from the rebuilt context' % (k, op, kind)})
         if any(r['stale'] for r in d['routes']):
             out.append({'class': 'stale-flag-at-handover-after-' + op, 'what': 'state %d: a tour is handed over with the stale flag set' % k})
+    compat = {j['id']: j.get('compat') for j in c['jobs']}
     for m in impl['observed_mismatches']:
         for r in m['routes']:
             if r.get('missing_in_rebuilt'):
@@ -163,6 +166,13 @@ def oracle(c, impl):
                     kinds.add('schedule')
                 live, fresh = canon_digest(r['dig']), canon_digest(r['fresh_dig'])
                 kinds |= set(e[0] for e in live if e not in fresh) | set(e[0] for e in fresh if e not in live)
+                # inside InfeasibleSearch the hard constraints are switched off and a tour can serve jobs of two
+                # compatibility values; the tag is then "the first tagged job of an unordered job set" (Tour::jobs is a
+                # HashSet), i.e. not a function of the tour at all - recomputing it twice can give two answers. Such tours
+                # never leave the operator (repair rebuilds under the real constraints; C04 checks VCompat at every handover).
+                tags = set(compat[j] for j in r.get('jobs', []) if compat.get(j))
+                if len(tags) > 1:
+                    kinds.discard('s')
                 kinds = sorted(kinds)
             if kinds:
                 out.append({'class': diff_class(kinds),
@@ -214,7 +224,8 @@ MANIFEST_TEXT = ('Machine-checked proof (Coq) over a model of the stale-flag pro
                  'tour" is kept by every protocol operation; after every single insertion all fields are fresh when features skip a '
                  'refresh only for jobs that cannot change their field (proved for the shipped table); at handover '
                  '(accept_solution_state) no tour is stale and every field is fresh PROVIDED its feature refreshes in that handler - '
-                 'true of transport, capacity, groups; false of compatibility (machine-checked counterexample = known finding); '
+                 'true of every shipped feature (transport, capacity, compatibility, groups); false of the compatibility feature '
+                 'as it was before /repo b397f8a (machine-checked counterexample on the pre-fix table, regression mutant C05-6); '
                  'objective values are a function of the tours. Tied to /repo on every run: cached state digests and schedules of '
                  'every tour after every real operator call and every observed insertion are compared with a context rebuilt from '
                  'the bare tours, and the rebuilt values with the Coq recomputation (schedules, latest arrivals, waiting, totals, load '
